@@ -34,16 +34,17 @@ def Pc.failed : Pc → Bool
   | .fail _ => true
   | _ => false
 
-/-- the items consumed so far, by control point: an optional processing instruction, then the
-header, then the acknowledgement -/
+/-- the consumed items end with the end of the acknowledgement: the acknowledgement in one piece,
+or its end tag -/
+def EndsAck (l : List Item) : Prop := l.getLast? = some .ack ∨ l.getLast? = some .ackClose
+
+/-- what the items consumed so far contain, by control point -/
 def Shape : Pc → List Item → Prop
-  | .start, l => l = []
-  | .readHdr false, l => l = []
-  | .readHdr true, l => l = [.pi]
-  | .writeHs id, l => l = [.hdr id] ∨ l = [.pi, .hdr id]
-  | .readAck id, l => l = [.hdr id] ∨ l = [.pi, .hdr id]
-  | .ret, l => l = [.hdr true, .ack] ∨ l = [.pi, .hdr true, .ack]
-  | .done, l => l = [.hdr true, .ack] ∨ l = [.pi, .hdr true, .ack]
+  | .writeHs id, l => .hdr id ∈ l
+  | .readAck id, l => .hdr id ∈ l
+  | .skipAck _, l => .hdr true ∈ l ∧ .ackOpen ∈ l
+  | .ret, l => .hdr true ∈ l ∧ EndsAck l
+  | .done, l => .hdr true ∈ l ∧ EndsAck l
   | _, _ => True
 
 structure Inv (O : Oracle) (script : List Item) (c : Conf) : Prop where
@@ -104,12 +105,9 @@ theorem inv_consumed (O : Oracle) (script : List Item) (c : Conf)
        refine ⟨_, cons_split h1', ?_⟩
        rw [‹c.pc = _›] at h2
        (try subst_vars)
-       (try cases ‹Bool›) <;> (try cases ‹Bool›) <;> simp only [Shape] at h2 ⊢ <;>
-         first
-         | exact True.intro
-         | (subst h2; simp; done)
-         | (rcases h2 with h2 | h2 <;> subst h2 <;> simp; done)
-         | (simp_all; done))
+       simp only [Shape, EndsAck] at h2 ⊢
+       simp_all
+       done)
     | skip
 
 theorem inv_cancel (O : Oracle) (c : Conf)
@@ -144,7 +142,7 @@ theorem inv_reach {O : Oracle} {script : List Item} {c : Conf} (h : Reach O scri
   constructor
   · intro _ e he; cases he
   · left; intro e he; cases he
-  · exact ⟨[], rfl, rfl⟩
+  · exact ⟨[], rfl, True.intro⟩
   · intro h; cases h
   · intro _ h; cases h
 
@@ -155,6 +153,7 @@ def rank : Pc → Nat
   | .readHdr _ => 5
   | .writeHs _ => 4
   | .readAck _ => 3
+  | .skipAck _ => 3
   | .ret => 2
   | .blocked _ => 1
   | .done | .fail _ | .hung _ => 0
